@@ -276,3 +276,60 @@ Proof.
       |apply (f_equal (@length _)) in Es; rewrite skipn_length in Es; simpl in *; lia]
     end.
 Qed.
+
+(* ---- save / load and clone (C19) ---- *)
+Lemma chain_ok_first r c sh : chain_ok r (c :: sh) = true -> cs_left c = r.
+Proof. simpl. intros H. apply andb_true_iff in H. destruct H as [H _]. apply Nat.eqb_eq. assumption. Qed.
+
+Theorem load_save_id (x : obj) : wf_obj x = true ->
+  exists y, load (save x) = inr y /\ ocores y = ocores x /\ fttm y = fttm x /\ fN y = fN x /\ fM y = fM x /\ fR y = fR x
+            /\ shape_eqb (fshape x) (fshape y) = true /\ wf_obj y = true.
+Proof.
+  intros Hw. apply wf_obj_alt in Hw. cbn zeta in Hw.
+  destruct Hw as [Hne [H1 [H2 [H3 [H4 [H5 [H6 [H7 H8]]]]]]]].
+  assert (Hc : ctor (ocores x) = inr (derive (ocores x))).
+  { unfold ctor. destruct (map fst (ocores x)) as [|c0 sh'] eqn:E; [congruence|].
+    assert (Hl : cs_left c0 = 1) by (eapply chain_ok_first; eassumption).
+    rewrite Hl, H2, H1, H3. reflexivity. }
+  assert (Hwf : wf_obj (derive (ocores x)) = true) by (eapply ctor_wf; exact Hc).
+  exists (derive (ocores x)). split; [exact Hc|]. split; [reflexivity|].
+  revert Hwf. unfold derive at 2 3 4 5 6. cbn [ocores fttm fM fN fR fshape].
+  destruct (map fst (ocores x)) as [|c0 sh'] eqn:E; [congruence|]. cbn [hd] in *. intros Hwf.
+  assert (Hl : cs_left c0 = 1) by (eapply chain_ok_first; eassumption).
+  split; [symmetry; exact H4|]. split; [symmetry; exact H5|].
+  split; [symmetry; exact H6|]. split; [rewrite H7, Hl; reflexivity|].
+  split; [exact H8|exact Hwf].
+Qed.
+
+Lemma fresh_snd st sh : map snd (fresh st sh) = seq (next_id st) (length sh).
+Proof.
+  unfold fresh. generalize (next_id st). induction sh as [|c sh IH]; intros n; simpl; [reflexivity|].
+  rewrite IH. reflexivity.
+Qed.
+Lemma ctor_cores cs o : ctor cs = inr o -> ocores o = cs.
+Proof.
+  unfold ctor. destruct (map fst cs); [discriminate|].
+  repeat match goal with |- context [if ?b then _ else _] => destruct b end; try discriminate.
+  intros H. inversion H. reflexivity.
+Qed.
+
+(* a clone shares no storage with the original (nor with any other object in existence) *)
+Theorem clone_fresh st x : ids_below st -> In x (pool st) ->
+  forall y, pool (clone_obj st x) = pool st ++ [y] ->
+  forall id, In id (storages y) -> ~ In id (storages x).
+Proof.
+  intros Hinv Hx y Hy id Hid Hin.
+  unfold clone_obj, push in Hy. destruct (ctor (fresh st (shapes x))) as [e|o] eqn:E.
+  - apply (f_equal (@length _)) in Hy. rewrite app_length in Hy. simpl in Hy. lia.
+  - cbn [pool] in Hy. apply app_inv_head in Hy. inversion Hy; subst y.
+    apply ctor_cores in E. unfold storages in Hid. rewrite E, fresh_snd in Hid.
+    apply in_seq in Hid. specialize (Hinv x Hx id Hin). lia.
+Qed.
+(* the invariant behind it: every storage in existence is older than the allocation counter *)
+Theorem push_ids st sh : ids_below st -> ids_below (push st sh).
+Proof.
+  intros Hinv. unfold push. destruct (ctor (fresh st sh)) as [e|o] eqn:E; [assumption|].
+  intros o' Ho' id Hid. cbn [pool next_id] in *. apply in_app_or in Ho'. destruct Ho' as [Ho'|[Ho'|[]]].
+  - specialize (Hinv o' Ho' id Hid). lia.
+  - subst o'. apply ctor_cores in E. unfold storages in Hid. rewrite E, fresh_snd in Hid. apply in_seq in Hid. lia.
+Qed.
